@@ -185,7 +185,7 @@ class ModInfo:
                 return EXT_CONSTS[full + "." + name]
             return ExtV(_canon(full + "." + name))
         if k == "def":
-            return it.make_func(th[1], self, None, th[1].name)
+            return it.decorate(it.make_func(th[1], self, None, th[1].name), None, self)
         if k == "class":
             return ClassV(th[1], self, th[1].name, None)
         if k == "assign":
@@ -320,8 +320,36 @@ class Interp:
                 continue
             if dn is None or (dn not in TRANSPARENT_DECORATORS and short not in TRANSPARENT_DECORATORS):
                 f.transparent = False
+                f.pending.append(d)
             f.decorators.append(dn)
         return f
+
+    def decorate(self, f: FuncV, env: Optional[Env], mi: ModInfo) -> Any:
+        """Apply the decorators that are defined inside the repository by interpreting them
+        (a private decorator factoring shared pre/post-processing); decorators that resolve to
+        external callables keep the function opaque."""
+        if f.transparent or not f.pending:
+            return f
+        val: Any = f
+        pend = list(f.pending)
+        f.pending = []
+        f.transparent = True
+        for d in reversed(pend):
+            try:
+                dec = self.eval(d, env or Env(None, {}), mi)
+            except Unsupported:
+                dec = Unknown("decorator")
+            if isinstance(dec, (FuncV, Bound, _Builtin)) or (isinstance(dec, ClassV)):
+                try:
+                    val = self.call_function(dec, [val], {}, d)
+                except Unsupported:
+                    val = Unknown("decorator application")
+            else:
+                val = Unknown(f"wrapped by an unmodelled decorator {_dotted(d.func if isinstance(d, ast.Call) else d)}")
+            if isinstance(val, Unknown):
+                f.transparent = False
+                return f
+        return val
 
     # ------------------------------------------------------------------ events
     def log(self, kind: str, node: Any = None, **data: Any) -> Event:
@@ -554,7 +582,7 @@ class Interp:
         """Look a method / class attribute up in a repository class and its repo bases."""
         for st in c.node.body:
             if isinstance(st, (ast.FunctionDef, ast.AsyncFunctionDef)) and st.name == name:
-                return self.make_func(st, c.module, c.env, f"{c.qualname}.{name}", cls=c)
+                return self.decorate(self.make_func(st, c.module, c.env, f"{c.qualname}.{name}", cls=c), c.env, c.module)
             if isinstance(st, ast.ClassDef) and st.name == name:
                 return ClassV(st, c.module, f"{c.qualname}.{name}", c.env)
             if isinstance(st, ast.Assign):
@@ -719,7 +747,7 @@ class Interp:
             return None
         if isinstance(st, (ast.FunctionDef, ast.AsyncFunctionDef)):
             qn = (self.call_stack[-1] + ".<locals>." if self.call_stack else "") + st.name
-            env.vars[st.name] = self.make_func(st, mi, env, qn)
+            env.vars[st.name] = self.decorate(self.make_func(st, mi, env, qn), env, mi)
             return None
         if isinstance(st, ast.ClassDef):
             qn = (self.call_stack[-1] + ".<locals>." if self.call_stack else "") + st.name
@@ -768,6 +796,28 @@ class Interp:
                     kind, val = self.exec_stmts(list(st.orelse), env, mi, lambda e: ("next", None))
                     if kind == "return":
                         return ("return", val)
+            return None
+        if isinstance(st, ast.Match):
+            subj = self.eval(st.subject, env, mi)
+            for case in st.cases:
+                binds: Dict[str, Any] = {}
+                m = self._match(case.pattern, subj, binds, env, mi)
+                if m is None:
+                    raise Unsupported(f"match statement with an undecidable pattern at {mi.rel}:{st.lineno}")
+                if not m:
+                    continue
+                for k_, v_ in binds.items():
+                    env.set(k_, v_)
+                if case.guard is not None:
+                    g_ = self.truth(self.eval(case.guard, env, mi), st)
+                    if g_ is False:
+                        continue
+                    if g_ is not True:
+                        raise Unsupported("match guard undecidable")
+                kind, val = self.exec_stmts(list(case.body), env, mi, lambda e: ("next", None))
+                if kind == "next":
+                    return None
+                return (kind, val) if not (kind == "return" and val is BOTTOM) else ("raise", None)
             return None
         if isinstance(st, ast.Try):
             mark = len(self.events)
@@ -886,6 +936,61 @@ class Interp:
             self.log("global-decl", st, names=list(st.names))
             return None
         raise Unsupported(f"statement {type(st).__name__} at {mi.rel}:{st.lineno}")
+
+    def _match(self, pat: Any, subj: Any, binds: Dict[str, Any], env: Env, mi: ModInfo) -> Optional[bool]:
+        if isinstance(pat, ast.MatchValue):
+            r = self.compare(ast.Eq(), subj, self.eval(pat.value, env, mi), pat)
+            return r if isinstance(r, bool) else None
+        if isinstance(pat, ast.MatchSingleton):
+            if isinstance(subj, (TV, Obj, Unknown, Gamma)) and not (isinstance(subj, Obj) and not subj.open_attrs):
+                return None
+            return subj is pat.value
+        if isinstance(pat, ast.MatchAs):
+            if pat.pattern is not None:
+                r = self._match(pat.pattern, subj, binds, env, mi)
+                if not r:
+                    return r
+            if pat.name:
+                binds[pat.name] = subj
+            return True
+        if isinstance(pat, ast.MatchOr):
+            unknown = False
+            for p_ in pat.patterns:
+                r = self._match(p_, subj, binds, env, mi)
+                if r:
+                    return True
+                if r is None:
+                    unknown = True
+            return None if unknown else False
+        if isinstance(pat, ast.MatchSequence):
+            if not isinstance(subj, (tuple, list)):
+                return False if not isinstance(subj, (TV, Obj, Unknown, Gamma)) else None
+            pats = pat.patterns
+            stars = [i for i, p_ in enumerate(pats) if isinstance(p_, ast.MatchStar)]
+            if not stars:
+                if len(pats) != len(subj):
+                    return False
+                for p_, x in zip(pats, subj):
+                    r = self._match(p_, x, binds, env, mi)
+                    if not r:
+                        return r
+                return True
+            i = stars[0]
+            after = len(pats) - i - 1
+            if len(subj) < len(pats) - 1:
+                return False
+            for p_, x in zip(pats[:i], subj[:i]):
+                r = self._match(p_, x, binds, env, mi)
+                if not r:
+                    return r
+            if pats[i].name:
+                binds[pats[i].name] = list(subj[i : len(subj) - after])
+            for p_, x in zip(pats[i + 1 :], subj[len(subj) - after :]):
+                r = self._match(p_, x, binds, env, mi)
+                if not r:
+                    return r
+            return True
+        return None
 
     def concrete_iter(self, it: Any) -> Optional[List[Any]]:
         if isinstance(it, OneShot):
